@@ -108,6 +108,10 @@ fn main() {
         i += 2;
     }
     let mut rep = Report::default();
+    // the logging environment of the server process of this shard (see env.rs)
+    let rust_log = cfg.extra.get("server_rust_log").cloned().unwrap_or_else(|| ["unset", "info", "warn", "debug"][((cfg.seed + cfg.shard) % 4) as usize].to_string());
+    std::env::set_var("VERIF_SERVER_RUST_LOG", &rust_log);
+    rep.count(&format!("server_processes_with_RUST_LOG_{}", rust_log), 1);
     match cfg.prop.as_str() {
         "c16" => run_c16(&cfg, &mut rep),
         "c17" => c17::run(&cfg, &mut rep),
